@@ -139,6 +139,7 @@ theorem consensusChecks_ok_spec (x : Ctx) (st : State) (i : Input) (sh : Share) 
 structure PartialOk (x : Ctx) (st : State) (i : Input) (sh : Share) (m : PMsg) : Prop where
   typeOk : validPartialSigMsgType m.ptype = true
   typeRoleOk : partialTypeMatchesRole m.ptype i.role = .ok true
+  notEarly : earlyMessage x.cfg m.slot i.now = false
   messagesOk : validatePartialMessages sh m = .ok ()
   behaviorOk : signerBehaviorPartial x.cfg i.role m (st (i.vid, i.role, m.signer)) = .ok ()
   sigOk : signatureFormat m.sigLen m.sigZero = .ok ()
@@ -149,8 +150,8 @@ theorem partialChecks_ok_spec (x : Ctx) (st : State) (i : Input) (sh : Share) (m
   have hall := (firstFail_ok_iff _).mp h
   unfold partialChecks at hall
   simp only [List.forall_mem_cons, List.not_mem_nil, false_imp_iff, implies_true, and_true] at hall
-  obtain ⟨h1, h2, h3, h4, h5, h6⟩ := hall
-  refine ⟨by simpa using (rejectIf_ok_iff _ _).mp h1, ?_, h3, h4, h5, h6⟩
+  obtain ⟨h1, h2, h2e, h3, h4, h5, h6⟩ := hall
+  refine ⟨by simpa using (rejectIf_ok_iff _ _).mp h1, ?_, (rejectIf_ok_iff _ _).mp h2e, h3, h4, h5, h6⟩
   cases hm : partialTypeMatchesRole m.ptype i.role with
   | error e => rw [hm] at h2; cases h2
   | ok b =>
